@@ -616,6 +616,44 @@ template<typename E> static void run_openadd(const std::string& kind, size_t n, 
 	else puts("?");
 }
 
+// ---- translator validation for the cxx2coq-generated AddCrt / Remove (Gen_OpenN1_exn.v, Gen_Open2N2_exn.v): the REAL bucket with
+//      its bytes set directly, a functor that throws or not; output = completed flag + every byte afterwards -------------------
+typedef momo::HashSetItemTraits<uint64_t, momo::MemManagerDefault> GenIT;
+template<bool REV> static void run_gen_n1(const std::string& op, const std::vector<unsigned>& by, uint64_t hash, bool fails, size_t index)
+{
+	typedef momo::internal::BucketOpenN1<GenIT, 3, REV> B;
+	alignas(B) static unsigned char buf[sizeof(B)];
+	B* b = ::new(static_cast<void*>(buf)) B();
+	for (size_t i = 0; i < 4; ++i) b->mData[i] = uint8_t(by[i]);
+	momo::MemManagerDefault mm; typename B::Params params(mm);
+	int completed = 1;
+	try
+	{
+		if (op == "add") b->AddCrt(params, [fails] (uint64_t* p) { if (fails) throw 1; *p = 0; }, size_t(hash), 0, 0);
+		else b->Remove(params, b->pvMakeIterator(b->ptGetItemPtr(index)), [fails] (uint64_t&, uint64_t&) { if (fails) throw 1; });
+	}
+	catch (int) { completed = 0; }
+	printf("%d %u %u %u %u\n", completed, unsigned(b->mData[0]), unsigned(b->mData[1]), unsigned(b->mData[2]), unsigned(b->mData[3]));
+}
+static void run_gen_o2(const std::string& op, const std::vector<unsigned>& by, uint64_t hash, bool fails, size_t index, size_t logbc, size_t probe)
+{
+	typedef momo::internal::BucketOpen2N2<GenIT, 3, true> B;
+	alignas(B) static unsigned char buf[sizeof(B)];
+	B* b = ::new(static_cast<void*>(buf)) B();
+	b->mState[0] = uint8_t(by[0]); b->mState[1] = uint8_t(by[1]);
+	for (size_t i = 0; i < 3; ++i) { b->mHashData.shortHashes[i] = uint8_t(by[2 + i]); b->mHashData.hashProbes[i] = uint8_t(by[5 + i]); }
+	momo::MemManagerDefault mm; typename B::Params params(mm);
+	int completed = 1;
+	try
+	{
+		if (op == "add") b->AddCrt(params, [fails] (uint64_t* p) { if (fails) throw 1; *p = 0; }, size_t(hash), logbc, probe);
+		else b->Remove(params, typename B::Iterator(&b->mItems + index + 1), [fails] (uint64_t&, uint64_t&) { if (fails) throw 1; });
+	}
+	catch (int) { completed = 0; }
+	printf("%d %u %u %u %u %u %u %u %u\n", completed, unsigned(b->mState[0]), unsigned(b->mState[1]), unsigned(b->mHashData.shortHashes[0]), unsigned(b->mHashData.shortHashes[1]),
+		unsigned(b->mHashData.shortHashes[2]), unsigned(b->mHashData.hashProbes[0]), unsigned(b->mHashData.hashProbes[1]), unsigned(b->mHashData.hashProbes[2]));
+}
+
 int main()
 {
 	g_arena = static_cast<char*>(std::malloc(ARENA));
@@ -624,6 +662,14 @@ int main()
 	{
 		std::istringstream is(line); std::string mech, cat; size_t n = 0; long k = -1;
 		is >> mech >> cat >> n >> k;
+		if (mech == "genn1" || mech == "geno2")
+		{	// gen?? <op add|rem> <fails 0|1> <hash> <index> <logbc> <probe> <bytes...>     (cat / n / k fields are unused: "-" 0 0)
+			std::string op; unsigned f = 0; uint64_t hash = 0; size_t index = 0, logbc = 0, probe = 0; is >> op >> f >> hash >> index >> logbc >> probe;
+			std::vector<unsigned> by; unsigned x; while (is >> x) by.push_back(x);
+			if (mech == "genn1") { by.resize(5, 0); if (by[4]) run_gen_n1<true>(op, by, hash, f != 0, index); else run_gen_n1<false>(op, by, hash, f != 0, index); }
+			else { by.resize(8, 0); run_gen_o2(op, by, hash, f != 0, index, logbc, probe); }
+			fflush(stdout); continue;
+		}
 		if (mech == "openadd")
 		{
 			std::string kind; is >> kind;
